@@ -1,7 +1,7 @@
 (* Dispatch: the three entry points the driver and the in-Coq cross-check use. *)
 From Coq Require Import String.
 From Coq Require Import List NArith ZArith Bool.
-From Verif Require Import GoStr GoNum GoHeader Sx Tables Route Forward Serve Wire Unit Monitors HistMon LimMon.
+From Verif Require Import GoStr GoNum GoHeader Sx Tables Route Forward Serve Wire Unit Monitors HistMon LimMon ConfigRun.
 Import ListNotations.
 Open Scope N_scope.
 
@@ -16,6 +16,9 @@ Definition run (x : sx) : sx :=
   else if str_eqb fam (bytes "cache") then run_cache x
   else if str_eqb fam (bytes "lim") then run_lim x
   else if str_eqb fam (bytes "limrt") then run_limrt x
+  else if str_eqb fam (bytes "cfg") then run_cfg x
+  else if str_eqb fam (bytes "reload") then run_reload x
+  else if str_eqb fam (bytes "swap") then run_swap x
   else L [A (bytes "unknown-family")].
 
 Definition proj (x o : sx) : sx :=
@@ -24,6 +27,7 @@ Definition proj (x o : sx) : sx :=
   else if str_eqb fam (bytes "copy") then proj_copy o
   else if str_eqb fam (bytes "cache") then proj_cache o
   else if str_eqb fam (bytes "limrt") then proj_limrt o
+  else if str_eqb fam (bytes "cfg") then proj_cfg o
   else o.
 
 Definition spec (prop : str) (x o : sx) : sx :=
@@ -41,6 +45,9 @@ Definition spec (prop : str) (x o : sx) : sx :=
     (if str_eqb prop (bytes "C20") then mon_C20 x o else v_ok)
   else if str_eqb fam (bytes "lim") || str_eqb fam (bytes "limrt") then
     (if str_eqb prop (bytes "C16") then mon_C16 x o else if str_eqb prop (bytes "C17") then mon_C17 x o else v_ok)
+  else if str_eqb fam (bytes "cfg") then mon_C19_cfg x o
+  else if str_eqb fam (bytes "reload") then mon_C19_reload x o
+  else if str_eqb fam (bytes "swap") then mon_C19_swap x o
   else if str_eqb fam (bytes "route") then
     (if str_eqb prop (bytes "C01") then mon_C01 x o
      else if str_eqb prop (bytes "C02") then mon_C02 x o
